@@ -395,6 +395,41 @@ example : (match Csv.importRows [[1, 2], [3, 4], [5, 6]] 2 with
     | .ok (d : DataSet Nat) => d.wf 2 && d.batches == [2, 1]
     | _ => false) = true := by decide
 
+/-- **C19 (first sentence of the property, for the model of the post-parse logic):** every
+importer family returns the library's exception (or, for dense LibSVM vectors beyond the
+allocation limit, `bad_alloc`) or a well-formed dataset — equal dimensions, labels within the
+class count, element count = record count, batches no larger than requested.  This is the
+conjunction of the four theorems above; LibSVM: the repaired logic (`importRepaired`), which
+`repaired_eq_current` identifies with the code in the tree on sorted, non-empty, one-based files. -/
+theorem import_wellformed_or_error {V : Type} :
+    (∀ (zero : V) (labelInt : V → Option Int) (cfg : Cfg) (recs : List (Rec V)),
+      match importRepaired zero labelInt cfg recs with
+      | .ok d => d.wf cfg.bs = true ∧ d.rows.length = recs.length
+      | .error => True
+      | .allocFail => True
+      | .oobWrite _ _ => False
+      | .ubEmptyMax => False) ∧
+    (∀ (rows : List (List V)) (maxB : Nat), 0 < maxB →
+      match Csv.importRows rows maxB with
+      | .ok d => d.wf maxB = true ∧ d.rows.length = rows.length
+      | .error => True
+      | _ => False) ∧
+    (∀ (pts : List (Int × List V)) (maxB : Nat), 0 < maxB →
+      match Csv.importClass pts maxB with
+      | .ok d => d.wf maxB = true ∧ d.rows.length = pts.length ∧
+          (match d.labels with
+           | .cls ls => ∀ l ∈ ls, l < numberOfClasses ls
+           | _ => False)
+      | .error => True
+      | _ => False) ∧
+    (∀ (rows : List (List V)) (labelFirst : Bool) (numOut maxB : Nat), 0 < maxB →
+      match Csv.importRegr rows labelFirst numOut maxB with
+      | .ok d => d.wf maxB = true ∧ d.rows.length = rows.length
+      | .error => True
+      | _ => False) :=
+  ⟨import_wellformed_or_error_svm, import_wellformed_or_error_csv_rows, import_wellformed_or_error_csv_class,
+   import_wellformed_or_error_csv_regr⟩
+
 /-! ## exporters then importers (token level) -/
 
 /-- **CSV round trip, classification (token level).**  The records `exportCSV` writes for a
